@@ -375,6 +375,8 @@ impl StorageEngine {
         if let Some(stored_value) = shard_guard.data.get_mut(key) {
             stored_value.metadata.set_expiration(expires_in);
             shard_guard.expiring_keys.insert(key.to_vec(), super::value::deadline_after(Instant::now(), expires_in));
+            // A new deadline is a change of the key as far as WATCH is concerned
+            shard_guard.mark_modified(key);
             Ok(true)
         } else {
             Ok(false)
@@ -495,6 +497,8 @@ impl StorageEngine {
             // Calculate memory to free from this shard
             for (key, stored_value) in shard_guard.data.iter() {
                 total_memory_to_free += self.calculate_value_size(key, &stored_value.value);
+                // Every key that is flushed away changes for the clients watching it
+                shard_guard.mark_modified(key);
             }
             
             shard_guard.data.clear();
@@ -2035,6 +2039,8 @@ impl StorageEngine {
             let mut shard_guard = old_shard.write().unwrap();
             if let Some(stored_value) = shard_guard.data.remove(old_key) {
                 shard_guard.data.insert(new_key.clone(), stored_value);
+                // Both names change: the source disappears, the destination is replaced
+                shard_guard.mark_modified(old_key);
                 shard_guard.mark_modified(&new_key);
                 Ok(())
             } else {
@@ -2060,6 +2066,7 @@ impl StorageEngine {
             // Move the value between shards
             if let Some(stored_value) = old_guard.data.remove(old_key) {
                 new_guard.data.insert(new_key.clone(), stored_value);
+                old_guard.mark_modified(old_key);
                 new_guard.mark_modified(&new_key);
                 Ok(())
             } else {
@@ -2120,6 +2127,7 @@ impl StorageEngine {
             if stored_value.metadata.expires_at.is_some() {
                 stored_value.metadata.clear_expiration();
                 shard_guard.expiring_keys.remove(key);
+                shard_guard.mark_modified(key);
                 Ok(true)
             } else {
                 Ok(false)
